@@ -13,6 +13,7 @@ import (
 	"github.com/wrgl/wrgl/pkg/ingest"
 	"github.com/wrgl/wrgl/pkg/merge"
 	"github.com/wrgl/wrgl/pkg/objects"
+	"github.com/wrgl/wrgl/pkg/progress"
 	"github.com/wrgl/wrgl/pkg/slice"
 	"github.com/wrgl/wrgl/pkg/sorter"
 )
@@ -34,8 +35,23 @@ type Unres struct {
 	Removed        []bool // per branch: row absent although base has it
 }
 
+// Opts tunes the progress tracker handling of a run.
+type Opts struct {
+	Period    time.Duration // progress tracker period (default 65ms, the CLI's)
+	Consume   bool          // start the merger's progress tracker and consume its events the way collectMergeConflicts does
+	StopDelay time.Duration // pause between the end of the merge channel and Progress.Stop()
+}
+
 // Run merges otherSums (tables) against baseSum. mode is "rows" or "blocks".
 func Run(db objects.Store, baseSum []byte, otherSums [][]byte, mode string) (*Result, error) {
+	return RunWith(db, baseSum, otherSums, mode, Opts{})
+}
+
+// RunWith is Run with explicit progress handling.
+func RunWith(db objects.Store, baseSum []byte, otherSums [][]byte, mode string, opts Opts) (*Result, error) {
+	if opts.Period == 0 {
+		opts.Period = 65 * time.Millisecond
+	}
 	baseT, err := objects.GetTable(db, baseSum)
 	if err != nil {
 		return nil, fmt.Errorf("HARNESS: base table: %v", err)
@@ -56,7 +72,7 @@ func Run(db objects.Store, baseSum []byte, otherSums [][]byte, mode string) (*Re
 		return nil, fmt.Errorf("CreateRowCollector: %v", err)
 	}
 	defer cleanup()
-	merger, err := merge.NewMerger(db, collector, buf, 65*time.Millisecond, baseT, otherTs, baseSum, otherSums, logr.Discard())
+	merger, err := merge.NewMerger(db, collector, buf, opts.Period, baseT, otherTs, baseSum, otherSums, logr.Discard())
 	if err != nil {
 		return nil, fmt.Errorf("NewMerger: %v", err)
 	}
@@ -66,7 +82,21 @@ func Run(db objects.Store, baseSum []byte, otherSums [][]byte, mode string) (*Re
 	}
 	res := &Result{Unresolved: map[string]*Unres{}}
 	var cd *diff.ColDiff
-	for m := range mc {
+	var pch <-chan progress.Event // nil (blocks forever) unless the tracker is consumed
+	if opts.Consume {
+		pch = merger.Progress.Start()
+	}
+	for {
+		var m *merge.Merge
+		var ok bool
+		select {
+		case <-pch:
+			continue
+		case m, ok = <-mc:
+		}
+		if !ok {
+			break
+		}
 		if m.ColDiff != nil {
 			cd = m.ColDiff
 			continue
@@ -84,6 +114,12 @@ func Run(db objects.Store, baseSum []byte, otherSums [][]byte, mode string) (*Re
 			return nil, fmt.Errorf("key %x reported unresolved twice", m.PK)
 		}
 		res.Unresolved[string(m.PK)] = u
+	}
+	if opts.Consume {
+		if opts.StopDelay > 0 {
+			time.Sleep(opts.StopDelay)
+		}
+		merger.Progress.Stop()
 	}
 	// like outputConflicts: the channel is drained first, only then are the unresolved keys
 	// discarded (SaveResolvedRow is also called by the collector goroutine while it runs)
